@@ -386,4 +386,30 @@ def r20_6(ctx):
     ctx.check("Style.parse(value)" in src and "config.items('styles')" in src, ff.fq, "from_file", ff.where, "from_file parses every value of [styles] with Style.parse", "Theme.from_file no longer parses the [styles] values with Style.parse")
 
 
-RULES = [r20_1, r20_2, r20_3, r20_4, r20_5, r20_6]
+def r20_7(ctx):
+    ctx.rule("R20.7", "the config reader takes values verbatim: Theme.config writes `name = str(style)` and a style definition may contain `%` (percent-encoded link URLs) and ` #rrggbb` colours, so the parser built in Theme.from_file must neither interpolate (`interpolation=None`, or RawConfigParser) nor strip inline comments (no inline_comment_prefixes) - otherwise the config text does not read back as a theme with equal styles")
+    th = ctx.repo.cls("theme:Theme")
+    ff = th.method("from_file")
+    m = ff.module
+    ctors = [c for c in walk_local(ff.node) if isinstance(c, ast.Call) and norm(c.func).split(".")[-1] in ("ConfigParser", "RawConfigParser", "SafeConfigParser")]
+    if len(ctors) != 1:
+        raise AnalysisError("Theme.from_file: expected exactly one ConfigParser construction")
+    c = ctors[0]
+    where = f"{m.relpath}:{c.lineno}"
+    raw = norm(c.func).split(".")[-1] == "RawConfigParser"
+    ip = kwarg(c, "interpolation")
+    if ip is None and len(c.args) > 7:
+        raise AnalysisError("Theme.from_file: ConfigParser built with positional options; not read")
+    ok_i = raw or (ip is not None and isinstance(ip, ast.Constant) and ip.value is None)
+    ctx.check(ok_i, ff.fq, short(c), where, "values are read without interpolation",
+              f"`{short(c)}` interpolates `%` in values: a style whose link is percent-encoded (Style(link='http://x/a%20b')) is written by Theme.config as `link http://x/a%20b` and reading it back raises InterpolationSyntaxError")
+    ic = kwarg(c, "inline_comment_prefixes")
+    ok_c = ic is None or (isinstance(ic, ast.Constant) and ic.value is None) or (isinstance(ic, (ast.Tuple, ast.List)) and not ic.elts)
+    ctx.check(ok_c, ff.fq, short(c), where, "no inline comment stripping",
+              f"`{short(c)}` strips inline comments: Theme.config writes truecolor as `#rrggbb`, so `bold #af00ff` reads back as `bold` and `red on #123456` as a syntax error")
+    for k in c.keywords:
+        if k.arg in ("delimiters", "comment_prefixes", "strict", "empty_lines_in_values", "default_section", "allow_no_value", "converters", "defaults", "dict_type"):
+            raise AnalysisError(f"Theme.from_file: ConfigParser option `{k.arg}` changes the grammar; the round-trip clause is not decided for it")
+
+
+RULES = [r20_1, r20_2, r20_3, r20_4, r20_5, r20_6, r20_7]
